@@ -20,7 +20,7 @@ from pyvc.values import AbsObj, Arr, Obj, Opaque, PDict, PList, SV, mk, sym, to_
 # ------------------------------------------------------------------------------------------
 
 OPS = ("add", "update", "remove", "reopen", "add_nan", "add_text", "update_text", "remove_hole_ws", "remove_hole_parent", "copy_group", "group_data", "idle_session",
-       "add_iv", "update_iv", "copy_other_edit")
+       "add_iv", "update_iv", "copy_other_edit", "add_note", "remove_note")
 
 
 def _file_tiling(path):
@@ -132,7 +132,8 @@ def run_history(case):
                     v = np.asarray(got[0].values, dtype=float)
                     if v.shape != exp.shape or not np.allclose(v, exp, equal_nan=True, rtol=1e-6):
                         return f"{where}: {hname}/{dname} reads {v.tolist()} but {exp.tolist()} was written"
-                names = {c.name for c in hole[0].children if hasattr(c, "values")}
+                # by name, not through the child list: concatenated holes load their data on demand
+                names = set(hole[0].get_data_list())
                 extra = names - set(datas) - {"DEPTH", "FROM", "TO"}
                 if extra:
                     return f"{where}: {hname} still lists removed data {sorted(extra)}"
@@ -208,6 +209,19 @@ def run_history(case):
                 else:
                     hole.remove_children(hole.get_data(name)[0])
                 del model[hname][name]
+            elif op in ("add_note", "remove_note"):
+                # a value attached to the hole as a whole (no depth table, no property group)
+                nname = name + "_note"
+                if op == "add_note" and nname not in model[hname]:
+                    vals = np.array([3.0 + step + h])
+                    hole.add_data({nname: {"values": vals.copy(), "association": "OBJECT"}})
+                    model[hname][nname] = vals
+                elif op == "remove_note" and nname in model[hname]:
+                    if step % 2:
+                        ws.remove_entity(hole.get_data(nname)[0])
+                    else:
+                        hole.remove_children(hole.get_data(nname)[0])
+                    del model[hname][nname]
             elif op in ("add_iv", "update_iv"):
                 # interval data of the property group 'assays' (shown by the group-wide table view)
                 iname = name + "_iv"
@@ -310,7 +324,7 @@ class ConcatHistories(Contract):
     symbolic = False
     has_native = True
     props = ("C04",)
-    bounded_scope = "2 holes x data names {Au, Cu}; operation sequences of length <= 4 (quick: 60 seeded + 38 fixed; thorough: 600) over add / add-with-NaN / remove a whole hole (through the workspace or the group, also straight after a re-open) / copy the group inside the workspace / data stored on the group itself / an idle open-list-close session (file digests unchanged) / interval data in a property group with the group-wide table view compared after every step / a copy into a second workspace edited there / add-text (each text longer than all earlier ones) / update / update-text / remove / re-open; both format versions; per-hole read-back after every step, raw file tiling after every close"
+    bounded_scope = "2 holes x data names {Au, Cu}; operation sequences of length <= 4 (quick: 60 seeded + 42 fixed; thorough: 600) over add / add-with-NaN / remove a whole hole (through the workspace or the group, also straight after a re-open) / copy the group inside the workspace / data stored on the group itself / values attached to a hole as a whole, added and removed in sessions that do nothing else / an idle open-list-close session (file digests unchanged) / interval data in a property group with the group-wide table view compared after every step / a copy into a second workspace edited there / add-text (each text longer than all earlier ones) / update / update-text / remove / re-open; both format versions; per-hole read-back after every step, raw file tiling after every close"
 
     FIXED = [
         [("add", 0, "Au"), ("add", 1, "Au"), ("remove", 0, "Au"), ("reopen", 0, "")],
@@ -327,6 +341,8 @@ class ConcatHistories(Contract):
         [("add", 0, "Au"), ("reopen", 0, ""), ("add", 1, "Au"), ("copy_group", 0, ""), ("add", 0, "Cu"), ("reopen", 0, "")],
         [("add", 0, "Au"), ("group_data", 0, ""), ("idle_session", 0, ""), ("reopen", 0, ""), ("idle_session", 0, ""), ("update", 0, "Au")],
         [("group_data", 0, ""), ("add", 1, "Cu"), ("reopen", 0, ""), ("idle_session", 0, "")],
+        [("add", 0, "Au"), ("add_note", 0, "Au"), ("add_note", 1, "Au"), ("reopen", 0, ""), ("remove_note", 0, "Au"), ("reopen", 0, ""), ("remove_note", 1, "Au"), ("reopen", 0, "")],
+        [("add_note", 0, "Au"), ("add_note", 0, "Cu"), ("reopen", 0, ""), ("remove_note", 0, "Cu"), ("reopen", 0, "")],
         [("add_iv", 0, "Au"), ("add_iv", 1, "Au"), ("update_iv", 0, "Au"), ("remove_hole_ws", 1, ""), ("reopen", 0, "")],
         [("add_iv", 0, "Au"), ("add_iv", 1, "Au"), ("add_iv", 1, "Cu"), ("update_iv", 1, "Au"), ("update_iv", 0, "Au"), ("reopen", 0, ""), ("update_iv", 1, "Cu")],
         [("add", 0, "Au"), ("add", 1, "Au"), ("add", 1, "Cu"), ("copy_other_edit", 0, ""), ("update", 1, "Au"), ("reopen", 0, "")],
